@@ -14,7 +14,8 @@ REQUIRED = ['getNBest_scale', 'plurality_scale', 'highestAverages_scale', 'sumVa
             'rankedToPositional_linear', 'approvalToSimple_linear', 'rankedToCondorcet_linear', 'positionalRule_scale',
             'approvalRule_scale', 'condorcetEv_scale', 'condorcetSet_scale', 'rankedToCondorcetVotes_linear',
             'condorcetRule_scale', 'condorcetSetRule_scale', 'benham_scale', 'tideman_scale',
-            'spav_scale', 'pav_scale', 'pav_fresh_scale']
+            'spav_scale', 'pav_scale', 'pav_fresh_scale',
+            'scoreVoting_scale', 'scoreAggregate_scale', 'majorityJudgmentPlus_scale', 'star_scale']
 # families whose scale invariance is proved in Lean (Props/C11.lean); the rest is covered by the oracle only
 PROVED_FAMILIES = ['plurality', 'ha_d_hondt', 'ha_sainte_lague', 'ha_imperiali', 'ha_danish', 'ha_macau', 'quota_selector_hare',
                    'rel_threshold_5pc', 'rel_threshold_third',
@@ -25,7 +26,8 @@ PROVED_FAMILIES = ['plurality', 'ha_d_hondt', 'ha_sainte_lague', 'ha_imperiali',
                    'condorcet_copeland_2o', 'condorcet_copeland_raw', 'condorcet_schulze', 'condorcet_kemeny_young',
                    'condorcet_minimax_winvotes', 'condorcet_minimax_margins', 'condorcet_minimax_pwo',
                    'condorcet_winner', 'smith_set', 'schwartz_set', 'benham', 'tideman_alternative',
-                   'approval_pav', 'approval_spav']
+                   'approval_pav', 'approval_spav',
+                   'score_mean', 'score_sum0', 'score_median', 'majority_judgment_plus', 'star']
 MULTIPLIERS = [2, 3, 7, 10 ** 6, 10 ** 25 + 7]
 SMALL_MULTIPLIERS = [2, 3, 7]
 NAMES = Names(prefix='cand')
@@ -49,6 +51,27 @@ def pairwise_of(prof):
 
 
 CONDORCET_SETS = {'condorcet_winner': 'winner', 'smith_set': 'smith', 'schwartz_set': 'schwartz'}
+
+
+SCORE_CFG = {'score_mean': ('score', {'function': 'mean', 'unscored': None}),
+             'score_sum0': ('score', {'function': 'sum', 'unscored': '0'}),
+             'score_median': ('score', {'function': 'median_low', 'unscored': None}),
+             'majority_judgment_plus': ('mj', {'function': 'median_low', 'unscored': None, 'tie_breaking': 'plus'}),
+             'star': ('star', {'function': 'sum', 'unscored': None, 'added_count': 1, 'added_fraction': '0'})}   # families.py
+MODEL_MAX_VOTES = 5000      # the model expands one list element per vote as the code does (and sorts by insertion)
+
+
+def enc_score(prof):
+    """families.py score profile -> the C12 driver encoding; None when a count is not a Python int (the code raises TypeError
+    there: open finding C11-score-aggregation-expands-votes) or the profile is too large for the expanding model"""
+    out, tot = [], 0
+    for b, w in prof:
+        f = Fraction(w)
+        if f.denominator != 1:
+            return None
+        tot += int(f)
+        out.append([[[c, str(sc)] for c, sc in b], int(f)])
+    return out if tot <= MODEL_MAX_VOTES else None
 
 
 def enc_approval(prof):
@@ -225,6 +248,12 @@ def model_line(case):
             if case['n'] != 1:
                 return None          # the C05 models are the single-winner evaluators
             return {'op': 'benham' if f == 'benham' else 'tideman', 'profile': prof}
+        if f in SCORE_CFG:
+            votes = enc_score(prof)
+            if votes is None:
+                return None
+            op, cfg = SCORE_CFG[f]
+            return dict(cfg, op=op, votes=votes, n=case['n'], min_count=0, truncation='0', bottom='0')
         if f in ('approval_pav', 'approval_spav'):
             return {'op': f[len('approval_'):], 'votes': prof, 'n': case['n']}
         if f.startswith('lr_') or f.startswith('qd_'):
@@ -246,9 +275,12 @@ def compare(case, iobs, mobs):
     if isinstance(mobs, dict) and 'res' in mobs and 'grp' in mobs:      # second-order Copeland: the C05 canonicalisation
         from props import C05
         return C05.compare({'op': 'eval', 'name': 'copeland_2o'}, got, mobs)
-    if case['op'] == 'scale' and case['family'] == 'approval_pav':       # the C12 canonicalisation (order among equal drops)
-        from props import C12
+    if case['op'] == 'scale' and case['family'] in ('approval_pav', 'score_mean', 'score_sum0', 'score_median', 'star'):
+        from props import C12          # the C12 canonicalisation (order among equal sort keys)
         return C12._cmp_keyed(got, mobs)
+    if case['op'] == 'scale' and case['family'] == 'majority_judgment_plus':
+        from props import C12          # the evaluator documents that it does not order the elected candidates
+        return C12.compare({'op': 'mj'}, got, mobs)
     if isinstance(mobs, dict) and 'sel' in mobs and 'keys' in mobs:
         if isinstance(got, dict):
             return f'impl={json.dumps(got)} model={json.dumps(mobs["sel"])}'
